@@ -155,6 +155,12 @@ impl Workspace {
         label: impl Into<String>,
         files: &[PathBuf],
     ) -> io::Result<Checkpoint> {
+        // Resolve (and refuse) every path before anything is created in the checkpoint store.
+        let mut rels = Vec::with_capacity(files.len());
+        for path in files {
+            rels.push(self.to_relative(path)?);
+        }
+
         let checkpoint_id = Uuid::new_v4().to_string();
         let label = label.into();
         let created_at_ms = now_ms();
@@ -164,15 +170,17 @@ impl Workspace {
 
         let mut entries = Vec::new();
 
-        for path in files {
-            let rel = self.to_relative(path)?;
-            let dest = files_root.join(&rel);
+        for rel in &rels {
+            // The file the entry names is the one under the workspace root, whatever the
+            // process's working directory is.
+            let source = self.root.join(rel);
+            let dest = files_root.join(rel);
 
-            if path.exists() {
+            if source.exists() {
                 if let Some(parent) = dest.parent() {
                     fs::create_dir_all(parent)?;
                 }
-                let bytes = fs::read(path)?;
+                let bytes = fs::read(&source)?;
                 let hash = hash_bytes(&bytes);
                 fs::write(&dest, &bytes)?;
                 entries.push(CheckpointFile {
